@@ -56,7 +56,7 @@ PROPS = {
         assumptions=POOL_ASSUME, trusted=POOL_TRUST,
     ),
     "C09": dict(
-        suites=[("pool", 2500, 60000)],
+        suites=[("pool", 2500, 60000), ("dhcp", 1200, 30000)],
         extracted=["pool.requestedInUseCmp", "pool.newInUseCmp", "pool.ownCurrentCmp", "pool.step1Order", "pool.step2Order"],
         rule=POOL_RULE,
         assumptions=POOL_ASSUME, trusted=POOL_TRUST,
@@ -125,7 +125,7 @@ PROPS = {
         trusted=["the kernel's loopback UDP in a private network namespace; the fake upstream identifies itself in the answer"],
     ),
     "C03": dict(
-        suites=[("inreply", 2500, 60000), ("dnsdec", 1500, 30000), ("dnsenc", 1500, 30000)],
+        suites=[("inreply", 2500, 60000), ("dnsdec", 1500, 30000), ("dnsenc", 1500, 30000), ("cache", 2000, 40000)],
         extracted=["dns.createInReplyFields"],
         rule=DNS_RULE,
         assumptions=["socket I/O of outquery.rs is outside this property's model (C07)"], trusted=[],
